@@ -79,7 +79,7 @@ func inPutUint(n int) intrinsic {
 		c.safe("index:BigEndian.Put:"+c.describeValue(cc.Args[1]), reach, ge(b.L[2], num(int64(n))), pos)
 		for i := 0; i < n; i++ {
 			sh := numBig(pow2(uint(8 * (n - 1 - i))))
-			c.storeElem(st, tByte, b.L[0], add(b.L[1], num(int64(i))), scalar(tByte, app("mod", app("div", v, sh), "256")))
+			c.storeElem(st, tByte, b.L[0], slIdx(b.L[1], num(int64(i))), scalar(tByte, app("mod", app("div", v, sh), "256")))
 		}
 		return Val{Typ: types.NewTuple()}, true
 	}
@@ -93,7 +93,7 @@ func inUint(n int) intrinsic {
 		var terms []T
 		for i := 0; i < n; i++ {
 			sh := numBig(pow2(uint(8 * (n - 1 - i))))
-			e := c.loadElem(st, tByte, b.L[0], add(b.L[1], num(int64(i)))).one()
+			e := c.loadElem(st, tByte, b.L[0], slIdx(b.L[1], num(int64(i)))).one()
 			c.sc.assume(inRange("0", e, "255"))
 			terms = append(terms, app("*", e, sh))
 		}
